@@ -15,6 +15,7 @@ pub mod c12;
 pub mod c13;
 pub mod c14;
 pub mod c15;
+pub mod c16;
 pub mod c17;
 pub mod c18;
 pub mod c19;
@@ -37,6 +38,7 @@ pub fn run(id: &str, tier: Tier) -> i32 {
         "C13" => c13::run(tier),
         "C14" => c14::run(tier),
         "C15" => c15::run(tier),
+        "C16" => c16::run(tier),
         "C17" => c17::run(tier),
         "C18" => c18::run(tier),
         "C19" => c19::run(tier),
@@ -66,6 +68,7 @@ pub fn replay(id: &str, path: &str) -> i32 {
             "C13" => c13::replay(case),
             "C14" => c14::replay(case),
             "C15" => c15::replay(case),
+            "C16" => c16::replay(case),
             "C17" => c17::replay(case),
             "C18" => c18::replay(case),
             "C19" => c19::replay(case),
